@@ -484,5 +484,6 @@ def replay(cx):
                     bad.append(f"generate_changing_data called twice with random_state={sd_} returns different frames")
                 key = f"misc|seed|{ob}"
             else:
-                bad.append(f"{ob}: {info}")
+                # no native re-run written for this obligation: never reported as a violation on the harness's word alone
+                return dict(reproduced=None, key=f"misc|{part}|{ob}", what=f"{ob}: no native replay for this obligation (info {str(info)[:200]})")
     return dict(reproduced=bool(bad), key=key, what="; ".join(bad)[:600])
